@@ -66,7 +66,9 @@ def run(tier, replay=None):
                 if w:
                     words.append([i // 4, w])
             recs.append({'id': c['id'], 'img': words, 'input': c['input'], 'imgwords': r['hdr'], 'datawords': datawords, 'exitpc': exitpc,
-                         'fuel': 3000000 if tier == "quick" else 30000000})
+                         # the image is executed for as long as the binary itself ran; a binary that did not come to an end within the recorder's
+                         # limit (C01's business) is followed for its first 50000 instructions only
+                         'fuel': min(3000000 if tier == "quick" else 30000000, r['steps'] + 16) if r['status'] == 'exit' else 50000})
             keep.append((c, r, v))
         can = json.loads(json.dumps(recs[0])); can['id'] = 'canary'; can['datawords'] = []   # every global / constant store becomes illegal
         can2 = json.loads(json.dumps(recs[0])); can2['id'] = 'canary2'; can2['img'] = [[a, (w - 1 if a == 1 else w)] for a, w in can2['img']]
